@@ -162,60 +162,64 @@ func decodes(kind string, body []byte) bool {
 // Dispatches is how often each request is sent (map iteration order may differ between them).
 const Dispatches = 3
 
+// build makes the container with the one route of the case; *ran is set whenever its handler runs.
+func build(c *Case, ran *bool) (cont *restful.Container, err error) {
+	defer func() {
+		if r := recover(); r != nil {
+			err = fmt.Errorf("build panic: %v", r)
+		}
+	}()
+	cont = restful.NewContainer()
+	if c.Router == "jsr" {
+		cont.Router(restful.RouterJSR311{})
+	} else {
+		cont.Router(restful.CurlyRouter{})
+	}
+	ws := new(restful.WebService)
+	ws.Path("/w")
+	preset := func(req *restful.Request, resp *restful.Response, chain *restful.FilterChain) {
+		resp.Header().Set(restful.HEADER_ContentType, c.Preset) // "a default Content-Type for every response"
+		chain.ProcessFilter(req, resp)
+	}
+	if c.Preset != "" {
+		switch c.PresetBy {
+		case "container-filter":
+			cont.Filter(preset)
+		case "webservice-filter":
+			ws.Filter(preset)
+		}
+	}
+	// the route gets its own copy of the list: what the package does to the slice it was handed must
+	// not reach the description of the case the model is told
+	rb := ws.GET("/x").Produces(append([]string{}, c.Produces...)...)
+	if c.Preset != "" && c.PresetBy == "route-filter" {
+		rb = rb.Filter(preset)
+	}
+	ws.Route(rb.To(func(req *restful.Request, resp *restful.Response) {
+		*ran = true
+		if c.Compact {
+			resp.PrettyPrint(false)
+		}
+		if c.Preset != "" {
+			switch c.PresetBy {
+			case "handler-AddHeader":
+				resp.AddHeader(restful.HEADER_ContentType, c.Preset)
+			case "handler-Header().Set":
+				resp.Header().Set(restful.HEADER_ContentType, c.Preset)
+			}
+		}
+		resp.WriteEntity(theEntity)
+	}))
+	cont.Add(ws)
+	return cont, nil
+}
+
 // Execute sends the request n times through Container.Dispatch on a fresh container.
 func Execute(c *Case, accept string, n int) (out []Obs) {
 	restful.DefaultResponseContentType(c.Default)
 	defer restful.DefaultResponseContentType("")
 	ran := false
-	build := func() (cont *restful.Container, err error) {
-		defer func() {
-			if r := recover(); r != nil {
-				err = fmt.Errorf("build panic: %v", r)
-			}
-		}()
-		cont = restful.NewContainer()
-		if c.Router == "jsr" {
-			cont.Router(restful.RouterJSR311{})
-		} else {
-			cont.Router(restful.CurlyRouter{})
-		}
-		ws := new(restful.WebService)
-		ws.Path("/w")
-		preset := func(req *restful.Request, resp *restful.Response, chain *restful.FilterChain) {
-			resp.Header().Set(restful.HEADER_ContentType, c.Preset) // "a default Content-Type for every response"
-			chain.ProcessFilter(req, resp)
-		}
-		if c.Preset != "" {
-			switch c.PresetBy {
-			case "container-filter":
-				cont.Filter(preset)
-			case "webservice-filter":
-				ws.Filter(preset)
-			}
-		}
-		rb := ws.GET("/x").Produces(c.Produces...)
-		if c.Preset != "" && c.PresetBy == "route-filter" {
-			rb = rb.Filter(preset)
-		}
-		ws.Route(rb.To(func(req *restful.Request, resp *restful.Response) {
-			ran = true
-			if c.Compact {
-				resp.PrettyPrint(false)
-			}
-			if c.Preset != "" {
-				switch c.PresetBy {
-				case "handler-AddHeader":
-					resp.AddHeader(restful.HEADER_ContentType, c.Preset)
-				case "handler-Header().Set":
-					resp.Header().Set(restful.HEADER_ContentType, c.Preset)
-				}
-			}
-			resp.WriteEntity(theEntity)
-		}))
-		cont.Add(ws)
-		return cont, nil
-	}
-	cont, err := build()
+	cont, err := build(c, &ran)
 	if err != nil {
 		for i := 0; i < n; i++ {
 			out = append(out, Obs{Kind: "other", Detail: err.Error()})
@@ -226,6 +230,75 @@ func Execute(c *Case, accept string, n int) (out []Obs) {
 		out = append(out, one(cont, c, accept, &ran))
 	}
 	return out
+}
+
+var lateSeq int
+
+// freshen gives the late types of the history names that are new in this process, so that every
+// execution (the first, a shrinking step, a replay) really starts without writers for them.
+func (c *Case) freshen() {
+	phaseMu.Lock()
+	defer phaseMu.Unlock()
+	for i := range c.Hist.Late {
+		l := &c.Hist.Late[i]
+		lateSeq++
+		fresh := l.At(lateSeq)
+		c.rename(l.Name, fresh)
+		l.Name = fresh
+	}
+}
+
+func registerLate(c *Case) {
+	for _, l := range c.Hist.Late {
+		var w restful.EntityReaderWriter
+		switch l.Codec {
+		case "json":
+			w = restful.NewEntityAccessorJSON(l.Name)
+		case "xml":
+			w = restful.NewEntityAccessorXML(l.Name)
+		default:
+			w = csvAccess{l.Name}
+		}
+		codec[l.Name] = l.Codec
+		restful.RegisterEntityAccessor(l.Name, w)
+	}
+}
+
+// ExecuteHist runs a case that has a history: ONE container, web service and route for all of it;
+// the earlier requests are served (their answers are traffic, not judged: a produced type may have
+// no writer yet), the late writers are registered where the history says, then the judged request
+// is dispatched n times in each of its two spellings — on the route object that has the history.
+func ExecuteHist(c *Case, n int) (real, realv []Obs) {
+	c.freshen()
+	restful.DefaultResponseContentType(c.Default)
+	defer restful.DefaultResponseContentType("")
+	ran := false
+	cont, err := build(c, &ran)
+	if err != nil {
+		for i := 0; i < n; i++ {
+			real = append(real, Obs{Kind: "other", Detail: err.Error()})
+			realv = append(realv, Obs{Kind: "other", Detail: err.Error()})
+		}
+		return real, realv
+	}
+	registered := false
+	for i, t := range c.Hist.Traffic {
+		if i >= c.Hist.RegAt && !registered {
+			registerLate(c)
+			registered = true
+		}
+		one(cont, t, t.Accept(), &ran)
+	}
+	if !registered {
+		registerLate(c)
+	}
+	for i := 0; i < n; i++ {
+		real = append(real, one(cont, c, c.Accept(), &ran))
+	}
+	for i := 0; i < n; i++ {
+		realv = append(realv, one(cont, c, c.Variant(), &ran))
+	}
+	return real, realv
 }
 
 func one(cont *restful.Container, c *Case, accept string, ran *bool) (o Obs) {
